@@ -328,6 +328,11 @@ func namedOf(t types.Type) *types.Named {
 		case *types.Pointer:
 			t = tt.Elem()
 		case *types.Named:
+			// universe types (error, comparable) have no package: nothing the rules look for
+			// is one of them, and every caller dereferences Obj().Pkg()
+			if tt.Obj() == nil || tt.Obj().Pkg() == nil {
+				return nil
+			}
 			return tt
 		case *types.Alias:
 			t = types.Unalias(tt)
